@@ -382,6 +382,12 @@ func genParse(seed uint64, tier string) *Scenario {
 
 // genToken draws a literal: structured, mutated, or arbitrary bytes.
 func genToken(r rng, base int, tier string) string {
+	if r.chance(0.04) {
+		// the Inf family and its near misses
+		pre := []string{"", "+", "-", "1", "x", " ", "_", "\xff", "++", "0", "."}[r.intn(11)]
+		body := []string{"Inf", "inf", "INF", "iNf", "Infinity", "infinity", "In", "nf", "Inff", "inf ", "Inf0", "I_nf"}[r.intn(12)]
+		return pre + body
+	}
 	switch r.intn(10) {
 	case 0:
 		// arbitrary bytes
